@@ -4,6 +4,17 @@ import Mathlib.Data.List.Perm.Subperm
   C13 — anything saved to HDF5 reloads to an observationally equal object.
   Model: `Model/Codec.lean` (`encode_for_hdf5`/`decode_from_hdf5`, `recursively_save_to_h5_file`,
   `load_from_h5_file`, `Aspire.config_dict` → `_build_aspire_from_file`).
+
+  Main statements
+  * `decode_encode_leaf` (+ `_iff`), `sentinel_collision_none/empty` : leaves round-trip iff they are not sentinel strings.
+  * `splitKey_joinKey`, `splitKey_joinKey_nil`, `splitKey_dotted`, `splitKey_foldl_joinKey` : dotted keys split back.
+  * `flatten_paths`, `saveDict_eq`, `saveDict_keys`, `saveDict_keys_nodup` : one dataset per root-to-leaf path,
+    named by the dotted path, no name collision.
+  * `loadDict_saveDict` (exact, in write order), `codec_roundtrip`, `codec_roundtrip_perm` (+ `_symm`) (any listing
+    order of the datasets) : the reloaded dictionary is `Val.eqv` to the saved one.
+  * `eqv_refl`, `eqv_symm`, `eqv_trans` : `Val.eqv` is an equivalence on trees with distinct keys.
+  * `config_roundtrip_direct`, `config_roundtrip`, `config_roundtrip_perm` : the rebuilt instance has the same settings.
+  * `dotted_key_not_roundtrip`, `empty_key_not_roundtrip`, `sentinel_value_not_roundtrip` : what `wf` excludes.
 -/
 namespace C13
 open Model
@@ -840,5 +851,715 @@ theorem config_roundtrip (c : AspireCfg) (h : CfgWf c = true) :
   refine ⟨config_roundtrip_direct c, ?_⟩
   rw [loadDict_saveDict _ (cfgWf_entriesWf c h)]
   exact config_roundtrip_direct c
+
+/-! ### 3 (continued). distinct leaves are stored under distinct keys -/
+
+theorem flatP_mem_iff (es : List (Str × Val)) (pl : PL) :
+    pl ∈ flatP es ↔ ∃ e ∈ es, ∃ q ∈ leavesV e.2, pl = (e.1 :: q.1, q.2) := by
+  induction es with
+  | nil => simp [flatP]
+  | cons e rest ih =>
+    obtain ⟨k, v⟩ := e
+    simp only [flatP, List.mem_append, List.mem_map, ih, List.mem_cons, exists_eq_or_imp]
+    apply or_congr_left
+    constructor
+    · rintro ⟨q, hq, rfl⟩; exact ⟨q, hq, rfl⟩
+    · rintro ⟨q, hq, rfl⟩; exact ⟨q, hq, rfl⟩
+
+/-- root-to-leaf paths of a well-formed dictionary are pairwise distinct -/
+theorem paths_nodup :
+    (∀ v, v.wf = true → ((leavesV v).map (·.1)).Nodup) ∧
+    (∀ es, entriesWf es = true → ((flatP es).map (·.1)).Nodup) := by
+  apply val_ind
+  · intro l _; simp [leavesV]
+  · intro es ih h; simpa [leavesV] using ih ((wf_dict es).1 h).2
+  · intro _; simp [flatP]
+  · intro k v rest ihv ihr h
+    rw [entriesWf_cons] at h
+    obtain ⟨_, _, hv, hnd, hr⟩ := h
+    simp only [flatP, List.map_append, List.map_map, Function.comp_def]
+    rw [List.nodup_append]
+    refine ⟨?_, ihr hr, ?_⟩
+    · have := List.Pairwise.map (S := (· ≠ ·)) (fun p => k :: p)
+        (fun a b (hab : a ≠ b) h => hab (List.cons.inj h).2) (ihv hv)
+      rw [List.map_map] at this
+      exact this
+    · intro a ha b hb hab
+      obtain ⟨q, _, rfl⟩ := List.mem_map.1 ha
+      obtain ⟨pl, hpl, rfl⟩ := List.mem_map.1 hb
+      obtain ⟨e, he, q', _, rfl⟩ := (flatP_mem_iff rest pl).1 hpl
+      simp only [List.cons.injEq] at hab
+      exact hnd e he hab.1.symm
+
+/-- every dataset key written for a well-formed dictionary is the dotted join of a root-to-leaf path -/
+theorem saveDict_keys (es : List (Str × Val)) (h : entriesWf es = true) :
+    (saveDict es).map (·.1) = (flatP es).map (fun pl => dotted pl.1) := by
+  rw [saveDict_eq, List.map_map]
+  apply List.map_congr_left
+  intro pl hpl
+  obtain ⟨_, h2, _⟩ := leaves_ok.2 es h pl hpl
+  have := foldl_joinKey_dotted [] pl.1 (by simp) (fun s hs => (h2 s hs).1)
+  simpa [dataset] using this
+
+/-- distinct leaves get distinct dataset names (no `create_dataset` collision) -/
+theorem saveDict_keys_nodup (es : List (Str × Val)) (h : entriesWf es = true) :
+    ((saveDict es).map (·.1)).Nodup := by
+  have h1 : ((saveDict es).map (·.1)).map splitKey = (flatP es).map (·.1) := by
+    have := congrArg (List.map (·.1)) (read_saveDict es h)
+    simpa [List.map_map, Function.comp_def, readDs] using this
+  have h2 : (((saveDict es).map (·.1)).map splitKey).Nodup := h1 ▸ paths_nodup.2 es h
+  exact List.Pairwise.of_map (S := (· ≠ ·)) splitKey (fun a b hab e => hab (by rw [e])) h2
+
+/-! ### 4 (continued). the result does not depend on the order in which h5py lists the datasets -/
+
+theorem getK_append (a b : List (Str × Val)) (k : Str) : getK (a ++ b) k = (getK a k).or (getK b k) := by
+  induction a with
+  | nil => simp [getK_nil]
+  | cons e rest ih =>
+    rw [List.cons_append, getK_cons, getK_cons, ih]
+    by_cases he : e.1 = k <;> simp [he]
+
+theorem getK_filter_ne (es : List (Str × Val)) (k k' : Str) (h : k' ≠ k) :
+    getK (es.filter (·.1 ≠ k')) k = getK es k := by
+  induction es with
+  | nil => rfl
+  | cons e rest ih =>
+    by_cases he : e.1 = k'
+    · have : e.1 ≠ k := by rw [he]; exact h
+      rw [List.filter_cons_of_neg (by simpa using he), getK_cons, if_neg this, ih]
+    · rw [List.filter_cons_of_pos (by simpa using he), getK_cons, getK_cons, ih]
+
+theorem getK_filter_self (es : List (Str × Val)) (k : Str) : getK (es.filter (·.1 ≠ k)) k = none := by
+  induction es with
+  | nil => rfl
+  | cons e rest ih =>
+    by_cases he : e.1 = k
+    · rw [List.filter_cons_of_neg (by simpa using he), ih]
+    · rw [List.filter_cons_of_pos (by simpa using he), getK_cons, if_neg he, ih]
+
+theorem getK_map_ne (es : List (Str × Val)) (k k' : Str) (x : Val) (h : k' ≠ k) :
+    getK (es.map fun e => if e.1 = k' then (k', x) else e) k = getK es k := by
+  induction es with
+  | nil => rfl
+  | cons e rest ih =>
+    rw [List.map_cons, getK_cons, getK_cons, ih]
+    by_cases he : e.1 = k'
+    · simp [he, h]
+    · simp [he]
+
+theorem getK_map_eq (es : List (Str × Val)) (k : Str) (x : Val) (h : k ∈ keys es) :
+    getK (es.map fun e => if e.1 = k then (k, x) else e) k = some x := by
+  induction es with
+  | nil => simp at h
+  | cons e rest ih =>
+    rw [List.map_cons, getK_cons]
+    by_cases he : e.1 = k
+    · simp [he]
+    · simp only [he, if_false]
+      apply ih
+      simp only [keys, List.map_cons, List.mem_cons] at h
+      rcases h with h | h
+      · exact absurd h.symm he
+      · exact h
+
+/-- the nested dictionary under `k` (empty when `k` is absent or holds a leaf) — `d.setdefault(k, {})` -/
+def subOf (acc : List (Str × Val)) (k : Str) : List (Str × Val) :=
+  match getK acc k with
+  | some (.dict s) => s
+  | _ => []
+
+theorem getK_insertPath_ne (k k' : Str) (ks : List Str) (l : Leaf) (acc : List (Str × Val)) (h : k' ≠ k) :
+    getK (insertPath (k' :: ks) l acc) k = getK acc k := by
+  by_cases hks : ks = []
+  · subst hks
+    rw [insertPath_single, getK_append, getK_filter_ne _ _ _ h, getK_cons]
+    simp [h, getK_nil]
+  · rw [insertPath_cons2 k' ks hks]
+    split
+    · rw [getK_map_ne _ _ _ _ h]
+    · rw [getK_append, getK_filter_ne _ _ _ h, getK_cons]
+      simp [h, getK_nil]
+
+theorem getK_insertPath_single (k : Str) (l : Leaf) (acc : List (Str × Val)) :
+    getK (insertPath [k] l acc) k = some (.leaf l) := by
+  rw [insertPath_single, getK_append, getK_filter_self, getK_cons]; simp
+
+theorem getK_insertPath_nested (k : Str) (ks : List Str) (hks : ks ≠ []) (l : Leaf) (acc : List (Str × Val)) :
+    getK (insertPath (k :: ks) l acc) k = some (.dict (insertPath ks l (subOf acc k))) := by
+  rw [insertPath_cons2 k ks hks]
+  have hg : getK acc k = (acc.find? (·.1 = k)).map (·.2) := rfl
+  unfold subOf
+  rw [hg]
+  cases hf : acc.find? (·.1 = k) with
+  | none =>
+    simp only [Option.map_none]
+    rw [getK_append, getK_filter_self, getK_cons]; simp
+  | some x =>
+    obtain ⟨k', w⟩ := x
+    cases w with
+    | leaf m =>
+      simp only [Option.map_some]
+      rw [getK_append, getK_filter_self, getK_cons]; simp
+    | dict sub =>
+      simp only [Option.map_some]
+      apply getK_map_eq
+      have := List.mem_of_find?_eq_some hf
+      have hk : k' = k := by simpa using List.find?_some hf
+      exact List.mem_map.2 ⟨_, this, hk⟩
+
+
+
+theorem keys_insertPath (p : List Str) (l : Leaf) (acc : List (Str × Val)) :
+    keys (insertPath p l acc) = keys acc ∨
+      ∃ k, p.head? = some k ∧ keys (insertPath p l acc) = (keys acc).filter (· ≠ k) ++ [k] := by
+  have hfil : ∀ k, keys (acc.filter (·.1 ≠ k)) = (keys acc).filter (· ≠ k) := by
+    intro k; simp [keys, List.filter_map, Function.comp_def]
+  cases p with
+  | nil => left; rfl
+  | cons k ks =>
+    by_cases hks : ks = []
+    · subst hks
+      right
+      refine ⟨k, rfl, ?_⟩
+      rw [insertPath_single]
+      simp only [keys, List.map_append, List.map_cons, List.map_nil]
+      rw [← hfil]
+    · rw [insertPath_cons2 k ks hks]
+      split
+      · left
+        simp only [keys, List.map_map]
+        apply List.map_congr_left
+        intro e _
+        by_cases he : e.1 = k <;> simp [he]
+      · right
+        refine ⟨k, rfl, ?_⟩
+        simp only [keys, List.map_append, List.map_cons, List.map_nil]
+        rw [← hfil]
+
+theorem keys_insertPath_nodup (p : List Str) (l : Leaf) (acc : List (Str × Val)) (h : (keys acc).Nodup) :
+    (keys (insertPath p l acc)).Nodup := by
+  rcases keys_insertPath p l acc with e | ⟨k, _, e⟩
+  · rw [e]; exact h
+  · rw [e, List.nodup_append]
+    refine ⟨h.filter _, by simp, ?_⟩
+    intro a ha b hb
+    simp only [List.mem_filter, decide_eq_true_eq] at ha
+    simp only [List.mem_singleton] at hb
+    subst hb; exact ha.2
+
+theorem keys_insertPath_mem (p : List Str) (l : Leaf) (acc : List (Str × Val)) (k : Str)
+    (h : k ∈ keys (insertPath p l acc)) : k ∈ keys acc ∨ p.head? = some k := by
+  rcases keys_insertPath p l acc with e | ⟨k', hk', e⟩
+  · rw [e] at h; exact Or.inl h
+  · rw [e] at h
+    simp only [List.mem_append, List.mem_filter, List.mem_singleton] at h
+    rcases h with h | h
+    · exact Or.inl h.1
+    · subst h; exact Or.inr hk'
+
+theorem keys_foldl_nodup (ds : List PL) (acc : List (Str × Val)) (h : (keys acc).Nodup) :
+    (keys (ds.foldl ins acc)).Nodup := by
+  induction ds generalizing acc with
+  | nil => exact h
+  | cons d ds ih => exact ih _ (keys_insertPath_nodup d.1 d.2 acc h)
+
+theorem keys_foldl_mem (ds : List PL) (acc : List (Str × Val)) (k : Str) (h : k ∈ keys (ds.foldl ins acc)) :
+    k ∈ keys acc ∨ ∃ pl ∈ ds, pl.1.head? = some k := by
+  induction ds generalizing acc with
+  | nil => exact Or.inl h
+  | cons d ds ih =>
+    rcases ih _ h with h' | ⟨pl, hpl, hk⟩
+    · rcases keys_insertPath_mem d.1 d.2 acc k h' with h'' | h''
+      · exact Or.inl h''
+      · exact Or.inr ⟨d, by simp, h''⟩
+    · exact Or.inr ⟨pl, by simp [hpl], hk⟩
+
+/-- the paths below the top-level key `k`, with `k` stripped -/
+def sel (k : Str) (ds : List PL) : List PL :=
+  ds.filterMap fun pl => match pl.1 with
+    | k' :: p => if k' = k then some (p, pl.2) else none
+    | [] => none
+
+theorem sel_nil (k : Str) : sel k [] = [] := rfl
+
+theorem sel_cons_eq (k : Str) (p : List Str) (l : Leaf) (ds : List PL) :
+    sel k ((k :: p, l) :: ds) = (p, l) :: sel k ds := by
+  simp [sel]
+
+theorem sel_cons_ne (k k' : Str) (p : List Str) (l : Leaf) (ds : List PL) (h : k' ≠ k) :
+    sel k ((k' :: p, l) :: ds) = sel k ds := by
+  simp [sel, h]
+
+theorem sel_cons_nil (k : Str) (l : Leaf) (ds : List PL) : sel k (([], l) :: ds) = sel k ds := by
+  simp [sel]
+
+theorem sel_append (k : Str) (a b : List PL) : sel k (a ++ b) = sel k a ++ sel k b := by
+  simp [sel, List.filterMap_append]
+
+theorem sel_perm (k : Str) (a b : List PL) (h : a.Perm b) : (sel k a).Perm (sel k b) := h.filterMap _
+
+/-- leaves outside `k` do not touch the entry `k` -/
+theorem getK_foldl_none (k : Str) (ds : List PL) (acc : List (Str × Val)) (h : sel k ds = []) :
+    getK (ds.foldl ins acc) k = getK acc k := by
+  induction ds generalizing acc with
+  | nil => rfl
+  | cons d ds ih =>
+    obtain ⟨p, l⟩ := d
+    simp only [List.foldl_cons]
+    cases p with
+    | nil =>
+      rw [sel_cons_nil] at h
+      rw [ih _ h]; rfl
+    | cons k' p =>
+      by_cases hk : k' = k
+      · subst hk; rw [sel_cons_eq] at h; simp at h
+      · rw [sel_cons_ne k k' p l ds hk] at h
+        rw [ih _ h]
+        exact getK_insertPath_ne k k' p l acc hk
+
+/-- a single dataset named exactly `k` -/
+theorem getK_foldl_leaf (k : Str) (l : Leaf) (ds : List PL) (acc : List (Str × Val)) (h : sel k ds = [([], l)]) :
+    getK (ds.foldl ins acc) k = some (.leaf l) := by
+  induction ds generalizing acc with
+  | nil => simp [sel_nil] at h
+  | cons d ds ih =>
+    obtain ⟨p, l'⟩ := d
+    simp only [List.foldl_cons]
+    cases p with
+    | nil => rw [sel_cons_nil] at h; exact ih _ h
+    | cons k' p =>
+      by_cases hk : k' = k
+      · subst hk
+        rw [sel_cons_eq] at h
+        simp only [List.cons.injEq, Prod.mk.injEq] at h
+        obtain ⟨⟨rfl, rfl⟩, h⟩ := h
+        rw [getK_foldl_none k' ds _ h]
+        exact getK_insertPath_single k' l' acc
+      · rw [sel_cons_ne k k' p l' ds hk] at h
+        exact ih _ h
+
+/-- the datasets `k.…` build the nested dictionary under `k`, in their relative order -/
+theorem getK_foldl_nested (k : Str) (ds : List PL) (acc s : List (Str × Val))
+    (hne : ∀ t ∈ sel k ds, t.1 ≠ [])
+    (h : getK acc k = some (.dict s) ∨ (getK acc k = none ∧ s = [] ∧ sel k ds ≠ [])) :
+    getK (ds.foldl ins acc) k = some (.dict ((sel k ds).foldl ins s)) := by
+  induction ds generalizing acc s with
+  | nil =>
+    rcases h with h | ⟨_, _, h⟩
+    · exact h
+    · exact absurd (sel_nil k) h
+  | cons d ds ih =>
+    obtain ⟨p, l⟩ := d
+    simp only [List.foldl_cons]
+    cases p with
+    | nil =>
+      rw [sel_cons_nil] at hne h ⊢
+      exact ih _ s hne h
+    | cons k' p =>
+      by_cases hk : k' = k
+      · subst hk
+        rw [sel_cons_eq] at hne h ⊢
+        have hp : p ≠ [] := hne (p, l) (by simp)
+        simp only [List.foldl_cons]
+        apply ih _ _ (fun t ht => hne t (by simp [ht]))
+        left
+        have : subOf acc k' = s := by
+          unfold subOf
+          rcases h with h | ⟨h, hs, _⟩
+          · rw [h]
+          · rw [h, hs]
+        show getK (insertPath (k' :: p) l acc) k' = _
+        rw [getK_insertPath_nested k' p hp l acc, this]; rfl
+      · rw [sel_cons_ne k k' p l ds hk] at hne h ⊢
+        apply ih _ s hne
+        have : getK (ins acc (k' :: p, l)) k = getK acc k := getK_insertPath_ne k k' p l acc hk
+        rw [this]; exact h
+
+
+
+theorem sel_map_cons_eq (k : Str) (L : List PL) : sel k (L.map fun pl => (k :: pl.1, pl.2)) = L := by
+  induction L with
+  | nil => rfl
+  | cons a L ih => rw [List.map_cons, sel_cons_eq, ih]
+
+theorem sel_map_cons_ne (k k' : Str) (h : k' ≠ k) (L : List PL) :
+    sel k (L.map fun pl => (k' :: pl.1, pl.2)) = [] := by
+  induction L with
+  | nil => rfl
+  | cons a L ih => rw [List.map_cons, sel_cons_ne k k' _ _ _ h, ih]
+
+theorem sel_flatP_none (es : List (Str × Val)) (k : Str) (h : ∀ e ∈ es, e.1 ≠ k) : sel k (flatP es) = [] := by
+  induction es with
+  | nil => rfl
+  | cons e rest ih =>
+    obtain ⟨k', v⟩ := e
+    simp only [flatP, sel_append]
+    rw [sel_map_cons_ne k k' (h (k', v) (by simp)), ih (fun e he => h e (by simp [he]))]; rfl
+
+/-- the datasets below a top-level key are exactly the leaves of its value -/
+theorem sel_flatP (es : List (Str × Val)) (hnd : (keys es).Nodup) (k : Str) (v : Val) (h : (k, v) ∈ es) :
+    sel k (flatP es) = leavesV v := by
+  induction es with
+  | nil => simp at h
+  | cons e rest ih =>
+    obtain ⟨k', v'⟩ := e
+    simp only [keys, List.map_cons, List.nodup_cons, List.mem_map, not_exists, not_and] at hnd
+    simp only [flatP, sel_append]
+    simp only [List.mem_cons, Prod.mk.injEq] at h
+    rcases h with ⟨rfl, rfl⟩ | h
+    · rw [sel_map_cons_eq, sel_flatP_none rest k (fun e he => hnd.1 e he)]; simp
+    · have : k' ≠ k := fun e => hnd.1 (k, v) h e.symm
+      rw [sel_map_cons_ne k k' this, ih hnd.2 h]; rfl
+
+/-- what the permutation theorem states for one dictionary body -/
+def PermRoundtrip (es : List (Str × Val)) : Prop :=
+  ∀ ds : List PL, ds.Perm (flatP es) →
+    Val.eqv (.dict (loadP ds)) (.dict es) = true ∧ Val.eqv (.dict es) (.dict (loadP ds)) = true
+
+theorem perm_roundtrip' :
+    (∀ v : Val, v.wf = true → ∀ es, v = .dict es → PermRoundtrip es) ∧
+    (∀ es, entriesWf es = true → ∀ e ∈ es, ∀ sub, e.2 = .dict sub → PermRoundtrip sub) := by
+  refine val_ind (P := fun v : Val => v.wf = true → ∀ es, v = .dict es → PermRoundtrip es)
+    (Q := fun es => entriesWf es = true → ∀ e ∈ es, ∀ sub, e.2 = .dict sub → PermRoundtrip sub) ?_ ?_ ?_ ?_
+  · intro l _ es h; cases h
+  · intro es ih hwf es' hes' ds hperm
+    cases hes'
+    obtain ⟨-, hes⟩ := (wf_dict es).1 hwf
+    have hnd : (keys es).Nodup := entriesNd_keys es (wf_nd.2 es hes)
+    -- every entry of `es` is found, with an equivalent value, in the reloaded dictionary
+    have hA : ∀ e ∈ es, ∃ w, getK (loadP ds) e.1 = some w ∧ Val.eqv w e.2 = true ∧ Val.eqv e.2 w = true := by
+      intro e he
+      obtain ⟨k, v⟩ := e
+      have hsel : (sel k ds).Perm (leavesV v) := by
+        have := sel_perm k _ _ hperm
+        rwa [sel_flatP es hnd k v he] at this
+      have hv : v.wf = true := ((entriesWf_iff es).1 hes).2 (k, v) he
+      cases v with
+      | leaf l =>
+        have : sel k ds = [([], l)] := by simpa [leavesV] using hsel
+        exact ⟨.leaf l, getK_foldl_leaf k l ds [] this, by simp [Val.eqv], by simp [Val.eqv]⟩
+      | dict sub =>
+        obtain ⟨hsne, hsub⟩ := (wf_dict sub).1 hv
+        simp only [leavesV] at hsel
+        have hne : ∀ t ∈ sel k ds, t.1 ≠ [] := fun t ht => flatP_path_ne_nil sub t (hsel.mem_iff.1 ht)
+        have hnn : sel k ds ≠ [] := by
+          intro e
+          rw [e] at hsel
+          exact leaves_ne_nil.2 sub hsub hsne hsel.symm.eq_nil
+        have hg := getK_foldl_nested k ds [] [] hne (Or.inr ⟨rfl, rfl, hnn⟩)
+        obtain ⟨h1, h2⟩ := ih hes (k, .dict sub) he sub rfl (sel k ds) hsel
+        exact ⟨_, hg, h1, h2⟩
+    have hB : (keys (loadP ds)).Nodup := keys_foldl_nodup ds [] (by simp)
+    have hC : ∀ k ∈ keys (loadP ds), k ∈ keys es := by
+      intro k hk
+      rcases keys_foldl_mem ds [] k hk with h | ⟨pl, hpl, hhead⟩
+      · simp at h
+      · obtain ⟨e, he, q, _, rfl⟩ := (flatP_mem_iff es pl).1 (hperm.mem_iff.1 hpl)
+        simp only [List.head?_cons, Option.some.injEq] at hhead
+        subst hhead
+        exact List.mem_map.2 ⟨e, he, rfl⟩
+    have hD : ∀ k ∈ keys es, k ∈ keys (loadP ds) := by
+      intro k hk
+      obtain ⟨e, he, rfl⟩ := List.mem_map.1 hk
+      obtain ⟨w, hw, _⟩ := hA e he
+      exact (getK_isSome_iff _ _).1 ⟨w, hw⟩
+    have hlen : es.length = (loadP ds).length := by
+      have : (keys es).Perm (keys (loadP ds)) :=
+        (List.perm_ext_iff_of_nodup hnd hB).2 (fun k => ⟨hD k, hC k⟩)
+      simpa [keys] using this.length_eq
+    have hflip := sub_flip (fun v w => Val.eqv w v = true) es (loadP ds) hnd hB hlen
+      (fun e he => by obtain ⟨w, hw, h1, _⟩ := hA e he; exact ⟨w, hw, h1⟩)
+    constructor
+    · rw [eqv_dict_iff]; exact ⟨hlen.symm, hflip⟩
+    · rw [eqv_dict_iff]
+      exact ⟨hlen, fun e he => by obtain ⟨w, hw, _, h2⟩ := hA e he; exact ⟨w, hw, h2⟩⟩
+  · intro _ e he; simp at he
+  · intro k v rest ihv ihr h e he sub hsub
+    rw [entriesWf_cons] at h
+    simp only [List.mem_cons] at he
+    rcases he with rfl | he
+    · exact ihv h.2.2.1 sub hsub
+    · exact ihr h.2.2.2.2 e he sub hsub
+
+/-- inserting the leaves of a well-formed dictionary in ANY order rebuilds an observationally equal dictionary -/
+theorem perm_roundtrip (es : List (Str × Val)) (h : entriesWf es = true) : PermRoundtrip es := by
+  cases es with
+  | nil =>
+    intro ds hp
+    have : ds = [] := by simpa [flatP] using hp
+    subst this
+    exact ⟨rfl, rfl⟩
+  | cons e rest =>
+    exact perm_roundtrip'.1 (.dict (e :: rest)) ((wf_dict _).2 ⟨by simp, h⟩) _ rfl
+
+theorem read_perm (es : List (Str × Val)) (h : entriesWf es = true) (ds : List (Str × H))
+    (hp : ds.Perm (saveDict es)) : (ds.map readDs).Perm (flatP es) := by
+  have := hp.map readDs
+  rwa [read_saveDict es h] at this
+
+/-- MAIN (any listing order): whatever the order in which the datasets are enumerated on reload (h5py: alphabetical),
+    the rebuilt dictionary is observationally equal to the saved one -/
+theorem codec_roundtrip_perm (es : List (Str × Val)) (h : entriesWf es = true) (ds : List (Str × H))
+    (hp : ds.Perm (saveDict es)) : Val.eqv (.dict (loadDict ds)) (.dict es) = true := by
+  rw [loadDict_eq_loadP]
+  exact (perm_roundtrip es h _ (read_perm es h ds hp)).1
+
+/-- … and symmetrically -/
+theorem codec_roundtrip_perm_symm (es : List (Str × Val)) (h : entriesWf es = true) (ds : List (Str × H))
+    (hp : ds.Perm (saveDict es)) : Val.eqv (.dict es) (.dict (loadDict ds)) = true := by
+  rw [loadDict_eq_loadP]
+  exact (perm_roundtrip es h _ (read_perm es h ds hp)).2
+
+/-- the reloaded dictionary has distinct keys and as many entries as the saved one -/
+theorem loadDict_perm_length (es : List (Str × Val)) (h : entriesWf es = true) (ds : List (Str × H))
+    (hp : ds.Perm (saveDict es)) : (loadDict ds).length = es.length :=
+  ((eqv_dict_iff _ _).1 (codec_roundtrip_perm es h ds hp)).1
+
+/-! ### 6 (continued). configuration reloaded from datasets listed in any order -/
+
+theorem eqv_leaf_left (a : Leaf) (w : Val) (h : Val.eqv (.leaf a) w = true) : w = .leaf a := by
+  cases w with
+  | leaf b => rw [eqv_leaf] at h; rw [h]
+  | dict bs => simp [Val.eqv] at h
+
+/-- entries under the same key of two observationally equal dictionaries are observationally equal -/
+theorem eqv_getK (L es : List (Str × Val)) (h1 : Val.eqv (.dict L) (.dict es) = true)
+    (h2 : Val.eqv (.dict es) (.dict L) = true) (k : Str) (v : Val) (hk : getK es k = some v) :
+    ∃ w, getK L k = some w ∧ Val.eqv v w = true ∧ Val.eqv w v = true := by
+  obtain ⟨w, hw, hvw⟩ := ((eqv_dict_iff _ _).1 h2).2 (k, v) (getK_some_mem es k v hk)
+  obtain ⟨v', hv', hwv⟩ := ((eqv_dict_iff _ _).1 h1).2 (k, w) (getK_some_mem L k w hw)
+  simp only at hv' hwv
+  rw [hk] at hv'
+  cases hv'
+  exact ⟨w, hw, hvw, hwv⟩
+
+theorem mapM_eq_filterMap {α β : Type} (g : α → Option β) (ws : List α) (h : ∀ w ∈ ws, ∃ b, g w = some b) :
+    ws.mapM g = some (ws.filterMap g) := by
+  induction ws with
+  | nil => rfl
+  | cons w ws ih =>
+    obtain ⟨b, hb⟩ := h w (by simp)
+    rw [List.mapM_cons, ih (fun w hw => h w (by simp [hw])), hb]
+    simp [hb]
+
+theorem namesOk_nodup (l : List Str) (h : namesOk l = true) : l.Nodup := by
+  induction l with
+  | nil => simp
+  | cons k r ih =>
+    simp only [namesOk, Bool.and_eq_true, List.all_eq_true, decide_eq_true_eq] at h
+    rw [List.nodup_cons]
+    exact ⟨fun hk => h.1.2 k hk rfl, ih h.2⟩
+
+/-- a dictionary of leaves, listed in another order, is read back as a permutation of the original list -/
+theorem leafDict_perm {α : Type} (g : α → Leaf) (rd : Str × Val → Option (Str × α))
+    (hrd : ∀ b : Str × α, rd (b.1, .leaf (g b.2)) = some b)
+    (l : List (Str × α)) (hnd : (l.map (·.1)).Nodup) (ws : List (Str × Val))
+    (h1 : Val.eqv (.dict (l.map fun b => (b.1, .leaf (g b.2)))) (.dict ws) = true) :
+    ∃ l', ws.mapM rd = some l' ∧ l'.Perm l := by
+  let f : Str × α → Str × Val := fun b => (b.1, .leaf (g b.2))
+  obtain ⟨hlen, hsub⟩ := (eqv_dict_iff _ _).1 h1
+  have hmem : ∀ e ∈ l.map f, e ∈ ws := by
+    intro e he
+    obtain ⟨w, hw, hew⟩ := hsub e he
+    obtain ⟨b, _, rfl⟩ := List.mem_map.1 he
+    have := eqv_leaf_left _ _ hew
+    subst this
+    exact getK_some_mem ws _ _ hw
+  have hnd' : (l.map f).Nodup := by
+    have : ((l.map f).map (·.1)) = l.map (·.1) := by simp [f, List.map_map, Function.comp_def]
+    exact List.Pairwise.of_map (S := (· ≠ ·)) (·.1) (fun a b hab e => hab (by rw [e])) (this ▸ hnd)
+  have hperm : (l.map f).Perm ws :=
+    (List.subperm_of_subset hnd' hmem).perm_of_length_le (Nat.le_of_eq hlen.symm)
+  have hall : ∀ w ∈ ws, ∃ b, rd w = some b := by
+    intro w hw
+    obtain ⟨b, _, rfl⟩ := List.mem_map.1 (hperm.mem_iff.2 hw)
+    exact ⟨b, hrd b⟩
+  refine ⟨ws.filterMap rd, mapM_eq_filterMap rd ws hall, ?_⟩
+  have h3 : (ws.filterMap rd).Perm ((l.map f).filterMap rd) := (hperm.filterMap rd).symm
+  have h4 : (l.map f).filterMap rd = l := by
+    rw [List.filterMap_map]
+    have : (rd ∘ f) = some := by funext b; exact hrd b
+    rw [this, List.filterMap_some]
+  rwa [h4] at h3
+
+/-- bounds compared up to the order of the parameters -/
+def boundsPerm : Option (List (Str × Nat × Nat)) → Option (List (Str × Nat × Nat)) → Prop
+  | none, none => True
+  | some a, some b => a.Perm b
+  | _, _ => False
+
+theorem readBounds_eqv (b : Option (List (Str × Nat × Nat)))
+    (hb : (match b with | none => true | some bs => namesOk (bs.map (·.1))) = true) (w : Val)
+    (h : Val.eqv (pbVal b) w = true) : ∃ b', readBounds w = some b' ∧ boundsPerm b' b := by
+  cases b with
+  | none =>
+    have := eqv_leaf_left _ _ h; subst this
+    exact ⟨none, rfl, trivial⟩
+  | some l =>
+    cases l with
+    | nil =>
+      have := eqv_leaf_left _ _ h; subst this
+      exact ⟨some [], rfl, List.Perm.refl _⟩
+    | cons x xs =>
+      cases w with
+      | leaf m => simp [pbVal, Val.eqv] at h
+      | dict ws =>
+        obtain ⟨l', hl', hp⟩ := leafDict_perm (fun p : Nat × Nat => Leaf.nums [p.1, p.2]) readBound (fun _ => rfl)
+          (x :: xs) (namesOk_nodup _ hb) ws h
+        exact ⟨some l', by simp [readBounds, hl'], hp⟩
+
+theorem readKw_eqv (kw : List (Str × Leaf)) (hk : namesOk (kw.map (·.1)) = true) (w : Val)
+    (h : Val.eqv (kwVal kw) w = true) : ∃ kw', readKw w = some kw' ∧ kw'.Perm kw := by
+  cases kw with
+  | nil =>
+    have := eqv_leaf_left _ _ h; subst this
+    exact ⟨[], rfl, List.Perm.refl _⟩
+  | cons x xs =>
+    cases w with
+    | leaf m => simp [kwVal, Val.eqv] at h
+    | dict ws =>
+      obtain ⟨l', hl', hp⟩ := leafDict_perm (fun l : Leaf => l) readOpt (fun _ => rfl)
+        (x :: xs) (namesOk_nodup _ hk) ws h
+      exact ⟨l', by simp [readKw, hl'], hp⟩
+
+
+
+/-- MAIN (configuration, any listing order of the datasets): the rebuilt instance has the same settings; the two
+    settings that are dictionaries (prior bounds, flow options) come back with the same entries, possibly listed
+    in another order (they are passed on as `dict` / `**kwargs`, where order is immaterial) -/
+theorem config_roundtrip_perm (c : AspireCfg) (h : CfgWf c = true) (ds : List (Str × H))
+    (hp : ds.Perm (saveDict c.toEntries)) :
+    ∃ bs kw, AspireCfg.ofEntries (loadDict ds) = some { c with bounds := bs, flowKwargs := kw } ∧
+      boundsPerm bs c.bounds ∧ kw.Perm c.flowKwargs := by
+  have hsub := ((eqv_dict_iff _ _).1 (codec_roundtrip_perm_symm c.toEntries (cfgWf_entriesWf c h) ds hp)).2
+  have hleaf : ∀ (k : String) (a : Leaf), (k.toList, Val.leaf a) ∈ c.toEntries →
+      lookup (loadDict ds) k = some (.leaf a) := by
+    intro k a hm
+    obtain ⟨w, hw, hew⟩ := hsub _ hm
+    rw [eqv_leaf_left a w hew] at hw
+    exact hw
+  simp only [CfgWf, Bool.and_eq_true] at h
+  obtain ⟨⟨⟨_, h6⟩, h7⟩, _⟩ := h
+  obtain ⟨wb, hwb, heb⟩ := hsub ("prior_bounds".toList, pbVal c.bounds) (by rw [toEntries_eq]; simp)
+  obtain ⟨wk, hwk, hek⟩ := hsub ("flow_kwargs".toList, kwVal c.flowKwargs) (by rw [toEntries_eq]; simp)
+  obtain ⟨bs, hbs, hbp⟩ := readBounds_eqv c.bounds h6 wb heb
+  obtain ⟨kw, hkw, hkp⟩ := readKw_eqv c.flowKwargs h7 wk hek
+  refine ⟨bs, kw, ?_, hbp, hkp⟩
+  apply ofEntries_of_lookups (loadDict ds) _ wb wk
+  · exact hleaf _ _ (by rw [toEntries_eq]; simp)
+  · exact hleaf _ _ (by rw [toEntries_eq]; simp)
+  · exact hleaf _ _ (by rw [toEntries_eq]; simp)
+  · exact hwb
+  · exact hbs
+  · exact hleaf _ _ (by rw [toEntries_eq]; simp)
+  · exact hleaf _ _ (by rw [toEntries_eq]; simp)
+  · exact hleaf _ _ (by rw [toEntries_eq]; simp)
+  · exact hleaf _ _ (by rw [toEntries_eq]; simp)
+  · exact hleaf _ _ (by rw [toEntries_eq]; simp)
+  · exact hleaf _ _ (by rw [toEntries_eq]; simp)
+  · exact hwk
+  · exact hkw
+  · exact hleaf _ _ (by rw [toEntries_eq]; simp)
+  · exact hleaf _ _ (by rw [toEntries_eq]; simp)
+
+/-! ### 5 (continued). transitivity (no hypothesis needed) -/
+
+theorem eqv_trans' :
+    (∀ a b c : Val, Val.eqv a b = true → Val.eqv b c = true → Val.eqv a c = true) ∧
+    (∀ as : List (Str × Val), ∀ e ∈ as, ∀ b c : Val, Val.eqv e.2 b = true → Val.eqv b c = true →
+      Val.eqv e.2 c = true) := by
+  refine val_ind (P := fun a => ∀ b c : Val, Val.eqv a b = true → Val.eqv b c = true → Val.eqv a c = true)
+    (Q := fun as => ∀ e ∈ as, ∀ b c : Val, Val.eqv e.2 b = true → Val.eqv b c = true → Val.eqv e.2 c = true)
+    ?_ ?_ ?_ ?_
+  · intro l b c h1 h2
+    rw [eqv_leaf_left l b h1] at h2
+    exact h2
+  · intro as ih b c h1 h2
+    cases b with
+    | leaf m => simp [Val.eqv] at h1
+    | dict bs =>
+      cases c with
+      | leaf m => simp [Val.eqv] at h2
+      | dict cs =>
+        rw [eqv_dict_iff] at h1 h2 ⊢
+        refine ⟨h1.1.trans h2.1, fun e he => ?_⟩
+        obtain ⟨w, hw, hew⟩ := h1.2 e he
+        obtain ⟨x, hx, hwx⟩ := h2.2 (e.1, w) (getK_some_mem bs _ _ hw)
+        exact ⟨x, hx, ih e he w x hew hwx⟩
+  · intro e he; simp at he
+  · intro k v rest ihv ihr e he
+    simp only [List.mem_cons] at he
+    rcases he with rfl | he
+    · exact ihv
+    · exact ihr e he
+
+theorem eqv_trans (a b c : Val) (h1 : Val.eqv a b = true) (h2 : Val.eqv b c = true) : Val.eqv a c = true :=
+  eqv_trans'.1 a b c h1 h2
+
+/-! ### 7 (continued). more of what well-formedness excludes -/
+
+/-- an empty key at the top level loses one level of nesting: `{"": {"b": 1}}` is stored as dataset `"b"`
+    (`f"{prefix}.{key}" if prefix else key` with `prefix == ""`) and comes back as `{"b": 1}` -/
+theorem empty_key_not_roundtrip :
+    loadDict (saveDict [([], .dict [("b".toList, .leaf (.int 1))])]) = [("b".toList, .leaf (.int 1))] := rfl
+
+/-- a sentinel string stored in a dictionary comes back as `None` -/
+theorem sentinel_value_not_roundtrip :
+    loadDict (saveDict [("a".toList, .leaf (.str noneSentinel))]) = [("a".toList, .leaf .none)] := rfl
+
+/-! ### non-vacuity: concrete instances -/
+
+/-- `{"a": None, "b": {}, "c": {"x": ["p","q"], "y": {"z": array([1,2,3])}}, "s": "hello", "n": 42.0, "flag": True,
+     "i": -3}` -/
+def exDict : List (Str × Val) :=
+  [("a".toList, .leaf .none),
+   ("b".toList, .leaf .emptyDict),
+   ("c".toList, .dict [("x".toList, .leaf (.strs ["p".toList, "q".toList])),
+                       ("y".toList, .dict [("z".toList, .leaf (.nums [1, 2, 3]))])]),
+   ("s".toList, .leaf (.str "hello".toList)),
+   ("n".toList, .leaf (.num 42)),
+   ("flag".toList, .leaf (.bool true)),
+   ("i".toList, .leaf (.int (-3)))]
+
+example : entriesWf exDict = true := by decide
+example : loadDict (saveDict exDict) = exDict := rfl
+example : Val.eqv (.dict (loadDict (saveDict exDict))) (.dict exDict) = true := by decide
+/-- the datasets of the example, in the order they are written -/
+example : (saveDict exDict).map (·.1) =
+    ["a".toList, "b".toList, "c.x".toList, "c.y.z".toList, "s".toList, "n".toList, "flag".toList, "i".toList] := by
+  decide
+/-- read in another order (here reversed; h5py lists alphabetically) the entries come back in another order … -/
+example : (loadDict (saveDict exDict).reverse).map (·.1) =
+    ["i".toList, "flag".toList, "n".toList, "s".toList, "c".toList, "b".toList, "a".toList] := by decide
+/-- … but the result is still observationally equal -/
+example : Val.eqv (.dict (loadDict (saveDict exDict).reverse)) (.dict exDict) = true := by decide
+
+/-- a configuration with bounds, periodic parameters, two flow options and a dtype -/
+def exCfg : AspireCfg where
+  dims := 2
+  parameters := some ["x".toList, "phi".toList]
+  periodic := some ["phi".toList]
+  bounds := some [("x".toList, 0, 4607182418800017408), ("phi".toList, 0, 4618760256179416344)]
+  boundedToUnbounded := true
+  boundedTransform := "logit".toList
+  flowMatching := false
+  device := none
+  xp := some "numpy".toList
+  flowBackend := "zuko".toList
+  flowKwargs := [("hidden_features".toList, .nums [64, 64]), ("activation".toList, .str "relu".toList)]
+  eps := 4472406533629990549
+  dtype := some "float64".toList
+
+example : CfgWf exCfg = true := by decide
+example : AspireCfg.ofEntries (loadDict (saveDict exCfg.toEntries)) = some exCfg := by decide
+example : (AspireCfg.ofEntries (loadDict (saveDict exCfg.toEntries))).map (·.flowKwargs) =
+    some [("hidden_features".toList, .nums [64, 64]), ("activation".toList, .str "relu".toList)] := by decide
+example : (AspireCfg.ofEntries (loadDict (saveDict exCfg.toEntries))).map (·.dtype) = some (some "float64".toList) := by
+  decide
+
+/-- the datasets of the example configuration read in reverse order: same settings, the two dictionary-valued
+    settings listed in reverse -/
+example : AspireCfg.ofEntries (loadDict (saveDict exCfg.toEntries).reverse) =
+    some { exCfg with bounds := exCfg.bounds.map List.reverse, flowKwargs := exCfg.flowKwargs.reverse } := by decide
 
 end C13
